@@ -1059,9 +1059,11 @@ func (c *cluster) handleNodeAction(nodeAction nodeAction) error {
 	c.logger.Printf("wait for jobResult")
 	jobResult := <-j.result
 
-	// Make sure j.run() didn't return an error.
-	if eg.Wait() != nil {
-		return errors.Wrap(err, "running job")
+	// If j.run() returned an error the job could not be started on every
+	// node; it ends as aborted.
+	if err := eg.Wait(); err != nil {
+		c.logger.Printf("resizeJob run error: err=%s", err)
+		jobResult = resizeJobStateAborted
 	}
 
 	c.logger.Printf("received jobResult: %s", jobResult)
